@@ -32,7 +32,9 @@ func genTeardownWorld(t *rapid.T, prop string, opts SetGenOpts, inject bool) *Sc
 		}
 	}
 	disturb := func() {
-		switch rapid.IntRange(0, 3).Draw(t, "disturb") {
+		switch rapid.IntRange(0, 4).Draw(t, "disturb") {
+		case 4:
+			sc.Steps = append(sc.Steps, Step{Op: "tpDeleteSlice", I: rapid.IntRange(0, 3).Draw(t, "slice")})
 		case 0:
 			sc.Steps = append(sc.Steps, Step{Op: "tpFinalizer", I: genPoolIdx(t, opts.PoolSize)})
 		case 1:
